@@ -46,8 +46,7 @@ func c38Run(arg string) explore.HistFn {
 			return n
 		}
 		lastKind := ""
-		drift := map[string]int64{}
-		negative := map[string]bool{}
+		mon := &c38Mon{drift: map[string]int64{}}
 		runHist(h, hist, func(op string) {
 			f := fields(op)
 			pid++
@@ -110,58 +109,9 @@ func c38Run(arg string) explore.HistFn {
 					}
 				}
 			}
-			info := h.W.S.Info
-			cs, ss, _ := h.W.S.Topics.VerifCountSubscriptions()
-			retained := 0
-			for t := range h.W.S.Topics.Retained.GetAll() {
-				if !strings.HasPrefix(t, "$SYS") {
-					retained++
-				}
-			}
-			type cmp struct {
-				name     string
-				reported int64
-				actual   int
-				skip     bool
-			}
-			for _, c := range []cmp{
-				{"ClientsConnected", atomic.LoadInt64(&info.ClientsConnected), established(), false},
-				{"Subscriptions", atomic.LoadInt64(&info.Subscriptions), cs + ss, false},
-				{"Retained", atomic.LoadInt64(&info.Retained), retained, sysDone},
-				{"Inflight", atomic.LoadInt64(&info.Inflight), h.W.S.VerifInflightTotal(), false},
-			} {
-				// a drift is attributed to the operation that first broke equality
-				d := c.reported - int64(c.actual)
-				if c.skip {
-					d = drift[c.name]
-				}
-				if d != drift[c.name] && d != 0 {
-					dir := "over"
-					if d < drift[c.name] {
-						dir = "under"
-					}
-					h.violate("drift:"+c.name+":"+dir+":"+lastKind, "%s reports %d (negative: %v) but the actual count is %d after %s (difference before this operation: %d)", c.name, c.reported, c.reported < 0, c.actual, op, drift[c.name])
-				}
-				drift[c.name] = d
-				negative[c.name] = c.reported < 0
-			}
-			if !h.last {
-				return
-			}
-			if sysDone && f[0] == "sys" {
-				want := map[string]int64{
-					"$SYS/broker/clients/connected": atomic.LoadInt64(&info.ClientsConnected),
-					"$SYS/broker/subscriptions":     atomic.LoadInt64(&info.Subscriptions),
-					"$SYS/broker/retained":          atomic.LoadInt64(&info.Retained),
-					"$SYS/broker/messages/inflight": atomic.LoadInt64(&info.Inflight),
-				}
-				all := h.W.S.Topics.Retained.GetAll()
-				for t, v := range want {
-					pk, ok := all[t]
-					if got, err := strconv.ParseInt(string(pk.Payload), 10, 64); !ok || err != nil || got != v {
-						h.violate("sys-topic:"+t, "%s payload %q, counter %d", t, pk.Payload, v)
-					}
-				}
+			mon.check(h, established(), op, func(string) string { return lastKind }, sysDone)
+			if h.last && sysDone && f[0] == "sys" {
+				c38SysTopics(h)
 			}
 		})
 		var next []string
@@ -191,15 +141,106 @@ func c38Run(arg string) explore.HistFn {
 	}
 }
 
+// c38Counts are the actual counts, taken from the broker's own structures.
+type c38Counts struct {
+	Subs      int // client + shared subscriptions in the topic index
+	RetNonSys int // retained messages outside $SYS
+	RetAll    int // all retained messages ($SYS topics included)
+	Inflight  int // sum of the in-flight maps of all known clients
+}
+
+func c38Actual(s *mqtt.Server) (c c38Counts) {
+	cs, ss, _ := s.Topics.VerifCountSubscriptions()
+	c.Subs = cs + ss
+	for t := range s.Topics.Retained.GetAll() {
+		c.RetAll++
+		if !strings.HasPrefix(t, "$SYS") {
+			c.RetNonSys++
+		}
+	}
+	c.Inflight = s.VerifInflightTotal()
+	return c
+}
+
+// c38Mon is the counter monitor: after every operation the four reported counters are
+// compared with the actual counts; a drift is attributed to the operation that first
+// broke (or changed) equality.
+type c38Mon struct {
+	drift map[string]int64
+	// TolerantRetained: the retained counter may or may not include the $SYS topics the broker
+	// itself retains (it is set to the size of the retained map by every retain / expiry, while
+	// a $SYS publication adds its topics without counting): both readings are accepted.
+	TolerantRetained bool
+}
+
+// check compares the counters of h's broker; kind(counter) names the operation kind for
+// the key; skipRetained: the retained counter is not compared (its drift is carried over).
+func (m *c38Mon) check(h *H, established int, op string, kind func(counter string) string, skipRetained bool) {
+	info := h.W.S.Info
+	act := c38Actual(h.W.S)
+	type cmp struct {
+		name     string
+		reported int64
+		actual   int
+		skip     bool
+	}
+	retained := act.RetNonSys
+	if m.TolerantRetained && atomic.LoadInt64(&info.Retained) == int64(act.RetAll) {
+		retained = act.RetAll
+	}
+	for _, c := range []cmp{
+		{"ClientsConnected", atomic.LoadInt64(&info.ClientsConnected), established, false},
+		{"Subscriptions", atomic.LoadInt64(&info.Subscriptions), act.Subs, false},
+		{"Retained", atomic.LoadInt64(&info.Retained), retained, skipRetained},
+		{"Inflight", atomic.LoadInt64(&info.Inflight), act.Inflight, false},
+	} {
+		// a drift is attributed to the operation that first broke equality
+		d := c.reported - int64(c.actual)
+		if c.skip {
+			d = m.drift[c.name]
+		}
+		if d != m.drift[c.name] && d != 0 {
+			dir := "over"
+			if d < m.drift[c.name] {
+				dir = "under"
+			}
+			h.violate("drift:"+c.name+":"+dir+":"+kind(c.name), "%s reports %d (negative: %v) but the actual count is %d after %s (difference before this operation: %d)", c.name, c.reported, c.reported < 0, c.actual, op, m.drift[c.name])
+		}
+		m.drift[c.name] = d
+	}
+}
+
+// c38SysTopics: after a $SYS publication the payloads of the four topics equal the counters.
+func c38SysTopics(h *H) {
+	info := h.W.S.Info
+	want := map[string]int64{
+		"$SYS/broker/clients/connected": atomic.LoadInt64(&info.ClientsConnected),
+		"$SYS/broker/subscriptions":     atomic.LoadInt64(&info.Subscriptions),
+		"$SYS/broker/retained":          atomic.LoadInt64(&info.Retained),
+		"$SYS/broker/messages/inflight": atomic.LoadInt64(&info.Inflight),
+	}
+	all := h.W.S.Topics.Retained.GetAll()
+	for t, v := range want {
+		pk, ok := all[t]
+		if got, err := strconv.ParseInt(string(pk.Payload), 10, 64); !ok || err != nil || got != v {
+			h.violate("sys-topic:"+t, "%s payload %q, counter %d", t, pk.Payload, v)
+		}
+	}
+}
+
 func init() {
 	explore.RegisterBFS("c38", c38Run)
+	explore.RegisterBFS("c38restart", c38rRun)
 	explore.Register("C38", func(c *explore.Ctx) {
 		c.Rep.Level = "model_checking"
 		c.Rep.Assumption("actual counts are taken from the broker's own structures at quiescence (trie walk, retained map without $SYS topics, sum of in-flight maps) and from the harness's open established connections; the retained counter is not compared after a $SYS publication (the $SYS topics themselves are retained)")
+		c.Rep.Assumption("c38restart: a broker on one real storage back end, started like Server.Serve (readStore, listener, first $SYS publication), $SYS publications as explicit operations, restart = the steps of Server.Close at quiescence followed by a new server and a new hook instance on the same store with zero downtime; the same monitor after every operation on both sides of the restart; the retained counter may count the broker's own $SYS topics or not (both readings accepted)")
+		// the restart scenarios are small and decisive: they run first so that the long history search cannot starve them
+		c38Restart(c)
 		if c.Quick() {
 			explore.RunBFS(c, "c38", "deep", 6, 70*time.Second)
 		} else {
-			explore.RunBFS(c, "c38", "deep7", 7, 11*time.Minute)
+			explore.RunBFS(c, "c38", "deep7", 7, 9*time.Minute)
 		}
 	})
 }
